@@ -237,7 +237,10 @@ func (c *Ctx) onlyFedByD(f *ssa.Function, i int, producerName string, depth int)
 		}
 		pc, idx := producer(av, site)
 		if pc == nil || idx != 0 || calleeName(pc) != producerName {
-			return false
+			// the result of a helper that hands back the named producer's result unchanged
+			if dn, di := c.deepProducer(av, site); dn != producerName || di != 0 {
+				return false
+			}
 		}
 		n++
 	}
